@@ -284,6 +284,23 @@ class _JsonShim:
     JSONDecodeError = _json.JSONDecodeError
 
 
+class _OsShim:
+    """os.urandom inside the library: recorded (the harness always supplies entropy_f, so any call is a finding) and
+    answered with fresh symbolic bytes"""
+    def __getattr__(self, name):
+        import os as _os
+        return getattr(_os, name)
+
+    @staticmethod
+    def urandom(n):
+        c = Ctx.cur
+        if c is None:
+            import os as _os
+            return _os.urandom(n)
+        c.table("urandom").append(n)
+        return SymBytes.fresh_chunk("urandom_%d" % len(c.table("urandom")), n)
+
+
 def instrument(mod):
     mod.__sym_mod__ = sym_mod
     mod.__sym_join__ = sym_join
@@ -304,3 +321,5 @@ def instrument(mod):
         mod.hkdf = _HkdfShim
     if hasattr(mod, "json"):
         mod.json = _JsonShim
+    if hasattr(mod, "os"):
+        mod.os = _OsShim()
